@@ -131,6 +131,28 @@ def oracles(ctx: Ctx):
         if why:
             ctx.violation("failing-input", "oracle:tamper.real", {"unit": "tamper.real", "input": enc([roots, m]), "why": why}, key="tamper.real")
             return
+    # two blobs protected right after the HOST seeded the non-cryptographic `random` module with the same constant: fields of one
+    # substituted into the other must still fail (the CEK and nonce must not come from a seedable generator)
+    import random as _random
+
+    try:
+        import dpapi_ng as _d
+
+        _random.seed(424242)
+        a_blob = _d.ncrypt_protect_secret(hostile.PLAIN, hostile.SID, root_key_identifier=e2e.RKID, cache=e2e.mk_cache(roots))
+        _random.seed(424242)
+        b_blob = _d.ncrypt_protect_secret(b"ANOTHER plaintext, protected after the same seed", hostile.SID, root_key_identifier=e2e.RKID, cache=e2e.mk_cache(roots))
+        for m in hostile.field_substitutions(a_blob, b_blob):
+            n += 1
+            out = dec(run_impl(lambda a: e2e.impl_unprotect(a, symbolic=False), [roots, m]))
+            why = pred(None, out)
+            if why:
+                ctx.violation("failing-input", "oracle:tamper.real", {"unit": "tamper.real", "input": enc([roots, m]),
+                                                                      "why": why + " (fields of a second blob, both protected after random.seed(constant) by the host)"},
+                              key="tamper.real.seeded")
+                return
+    except Exception as exc:  # noqa: BLE001
+        ctx.notes.append(f"tamper.real: seeded-host substitution family not built ({type(exc).__name__})")
     # key-aware forgeries (another plaintext under the same CEK, shortened tag, matching ICV length)
     fb, cek, iv = hostile.valid_blob_with_cek(hid=4)
     forged = 0
